@@ -1,5 +1,5 @@
 From Coq Require Import Permutation.
-From Verif Require Import Lib.Base Gen.MuxOrder Abci.Mux Abci.MuxProofs Gen.MuxSorts Abci.MapOrder Abci.MapOrderProofs.
+From Verif Require Import Lib.Base Gen.MuxOrder Abci.Mux Abci.MuxProofs Gen.MuxSorts Abci.MapOrder Abci.MapOrderProofs Gen.MuxMapSites Abci.MapSites.
 
 (* C01 -- replicas compute identical state and results for identical blocks.
    All statements are about the generic multiplexer model Verif.Abci.Mux, for every
@@ -193,3 +193,70 @@ Theorem mux_step_order :
   beginblock_upgrade_before_apps = true.
 Proof. exact MuxProofs.mux_step_order. Qed.
 Print Assumptions mux_step_order.
+
+(* ---- exhaustive enumeration of map iterations / nondeterminism sources ---- *)
+(* Every `range` over a map-typed expression, every maps.Keys/Values/All call, and every
+   time.Now / rand / go / select / os.Getenv / config / debug-flag read in the packages that
+   run inside block processing (type-checked enumeration by harness/cmd/gen muxmapsites) is in
+   the hand-reviewed table with exactly the statement text it was reviewed with. *)
+Theorem all_sites_reviewed : forallb reviewed sites = true.
+Proof. exact MapSites.all_sites_reviewed. Qed.
+Print Assumptions all_sites_reviewed.
+
+(* class OrderInsensitive: a fold whose step commutes gives the same result for every
+   iteration order (sums, counts, max/min; instances sum_perm, max_perm, count_perm). *)
+Theorem fold_over_map_order_irrelevant :
+  forall (A B : Type) (f : A -> B -> A),
+    (forall a x y, f (f a x) y = f (f a y) x) ->
+    forall l1 l2, Permutation l1 l2 -> forall a, fold_left f l1 a = fold_left f l2 a.
+Proof. exact @MapSites.fold_left_perm. Qed.
+Print Assumptions fold_over_map_order_irrelevant.
+
+(* ... independent per-key writes: every lookup in the resulting map is order-independent *)
+Theorem per_key_writes_order_irrelevant :
+  forall (V : Type) (l1 l2 : list (N * V)) (m : list (N * V)),
+    Permutation l1 l2 -> NoDup (map fst l1) -> forall k, aget k (write_all l1 m) = aget k (write_all l2 m).
+Proof. exact @MapSites.per_key_writes_perm. Qed.
+Print Assumptions per_key_writes_order_irrelevant.
+
+(* ... universal / existential tests and delete-by-predicate *)
+Theorem tests_over_map_order_irrelevant :
+  forall (B : Type) (p : B -> bool) (l1 l2 : list B), Permutation l1 l2 ->
+    forallb p l1 = forallb p l2 /\ existsb p l1 = existsb p l2 /\ Permutation (filter p l1) (filter p l2).
+Proof. exact (fun B p l1 l2 H => conj (MapSites.all_perm p l1 l2 H) (conj (MapSites.any_perm p l1 l2 H) (MapSites.delete_by_predicate_perm p l1 l2 H))). Qed.
+Print Assumptions tests_over_map_order_irrelevant.
+
+(* ... the arg-max loop of the commitment pool: the maximum is order-independent, and the
+   winning key is too whenever it is used (strict majority of the votes). *)
+Theorem majority_argmax_unique :
+  forall l1 l2 : list (N * N), NoDup (map fst l1) -> Permutation l1 l2 ->
+    snd (argmax l1) = snd (argmax l2) /\ (vsum l1 < 2 * snd (argmax l1) -> fst (argmax l1) = fst (argmax l2)).
+Proof. exact MapSites.majority_argmax_unique. Qed.
+Print Assumptions majority_argmax_unique.
+
+(* ---- system transactions and the upgrade handler, explicitly ---- *)
+(* A block accepted by a validating / replaying node carries a block-metadata transaction
+   whose state root is the root of the committed state and whose events root covers all the
+   block's events; that state already includes the upgrade handler's EndBlock writes. *)
+Theorem accepted_block_binds_metadata_and_upgrade :
+  forall (S : msig) (cfg : localcfg) (apps : list (app S)) (s : sg_state S) (b : block) (s' : sg_state S) (o : outputs S),
+    exec_block S cfg apps false s b = Some (s', o) ->
+    meta_in S (b_txs b) (sg_root S s', o_events_root S o) /\
+    o_events_root S o = sg_evroot S (all_events S o) /\
+    exists s3 uev eev, sg_upgrade_end S (b_header b) s3 = Some (s', uev) /\ o_end_events S o = eev ++ uev.
+Proof. exact MuxProofs.accepted_block_binds_metadata_and_upgrade. Qed.
+Print Assumptions accepted_block_binds_metadata_and_upgrade.
+
+(* History level (complements replicas_agree): after any history every replica holds exactly
+   the state announced by the last block's metadata transaction, post-upgrade. *)
+Theorem replicas_hold_the_announced_state :
+  forall (S : msig) (base : list (app S)) (n : node S) (ops : list (op S)) (n' : node S) (cs : sg_state S) (outs : list (outputs S)),
+    NoDup (map (a_name S) base) -> Permutation base (n_apps S n) -> n_cache S n = None -> ops_ok S base ops ->
+    run S n ops = Some ((n', cs), outs) -> blocks_of S ops <> [] ->
+    exists b o, In b (blocks_of S ops) /\ last (blocks_of S ops) b = b /\
+      meta_in S (b_txs b) (sg_root S (n_committed S n'), o_events_root S o) /\
+      o_events_root S o = sg_evroot S (all_events S o) /\
+      (exists s3 uev eev, sg_upgrade_end S (b_header b) s3 = Some (n_committed S n', uev) /\ o_end_events S o = eev ++ uev) /\
+      exists pre, outs = pre ++ [o].
+Proof. exact MuxProofs.replicas_hold_the_announced_state. Qed.
+Print Assumptions replicas_hold_the_announced_state.
